@@ -133,6 +133,7 @@ def run_property(prop, tier, *, jobs=None, only=None, verbose=False,
     samples = []
     call_kinds: dict[str, int] = {}
     native_repo: dict[str, int] = {}
+    unordered_natives: dict[str, int] = {}
     paths_total = 0
     for r in normal:
         if r["fault"]:
@@ -144,6 +145,9 @@ def run_property(prop, tier, *, jobs=None, only=None, verbose=False,
         for k, v in r["call_log"].items():
             kind = k.split(":", 1)[0]
             call_kinds[kind] = call_kinds.get(kind, 0) + v
+            if kind == "unordered-to-unclassified-native":
+                unordered_natives[k.split(":", 1)[1]] = unordered_natives.get(
+                    k.split(":", 1)[1], 0) + v
             if kind == "native" and k.split(":", 1)[1].startswith("pytato"):
                 native_repo[k.split(":", 1)[1]] = native_repo.get(
                     k.split(":", 1)[1], 0) + v
@@ -331,6 +335,8 @@ def run_property(prop, tier, *, jobs=None, only=None, verbose=False,
                     f for c in core.REGISTRY.values()
                     if prop in c.properties for f in c.functions}),
                 call_site_treatment=call_kinds,
+                natives_given_sets_assumed_order_insensitive=dict(
+                    sorted(unordered_natives.items())),
                 repo_callables_run_natively=dict(
                     note="repository classes constructed / callables run by "
                          "CPython instead of the interpreter (constructors, "
